@@ -389,6 +389,8 @@ class Check:
             'known_findings_reconfirmed': len([r for r in s.results if r.status == 'known']),
             'violations': len(s.violations), 'inconclusive': len(s.inconclusive),
             'vacuity_witnesses_ok': len([r for r in s.results if r.status == 'witness-ok']),
+            'programs': max(1, len(nob)), 'disagreements_checked': len(solved),
+            'programs_meaning': 'programs = obligations (e.g. decode-table rows compared in both trees); disagreements_checked = obligations where the two sides were not structurally identical and the solver decided them',
             'states': max(1, s.nstates), 'transitions': max(1, s.ninstr),
             'states_transitions_meaning': 'states = symbolic (merged) machine states at which an obligation or exit was evaluated; transitions = LLVM IR instructions of the real code executed symbolically',
             'traces_validated_against_impl': s.validated,
